@@ -158,6 +158,68 @@ def v_roundtrip(tier_name):
                         first = snap
                     elif snap != first:
                         return {'status': 'refuted', 'messages': ['record changed by round trip %d' % (k + 1)], 'cases': cases}
+        # the traceback object formats exactly like the real one (below the frame limit), also when two different functions of one
+        # file share a name (two decorators' wrappers) and when the record was built from an explicit (type, value, traceback) triple
+        def deco_a(fn):
+            def wrapper(*a):
+                return fn(*a)
+            return wrapper
+
+        def deco_b(fn):
+            def wrapper(*a):
+                x = 1
+                return fn(*a) if x else None
+            return wrapper
+        stacked = deco_a(deco_b(deco_a(_the_raising_frame)))
+        for explicit in (False, True):
+            cases += 1
+            try:
+                stacked(ValueError('w'))
+            except ValueError:
+                et, ev, tb = sys.exc_info()
+                real = traceback.format_tb(tb)
+                real_text = ''.join(traceback.format_exception(et, ev, tb))
+                ei = be.ExceptionInfo((et, ev, tb)) if explicit else be.ExceptionInfo()
+            for k in range(2):
+                try:
+                    formatted = traceback.format_tb(ei.tb)
+                except Exception as exc:
+                    return {'status': 'refuted', 'messages': ['the standard traceback module cannot format the picklable traceback (same-named functions): %s: %s'
+                                                              % (type(exc).__name__, exc)], 'cases': cases}
+                if formatted != real:
+                    return {'status': 'refuted', 'messages': ['picklable traceback formats differently from the real one (same-named functions, explicit=%s, after %d round trips)'
+                                                              % (explicit, k)], 'cases': cases}
+                if ei.traceback != real_text:
+                    return {'status': 'refuted', 'messages': ['traceback text differs from traceback.format_exception of the real traceback (explicit triple=%s)' % explicit],
+                            'cases': cases}
+                ei = pickle.loads(pickle.dumps(ei))
+        # the pool-made record for a result that could not be serialised (what Worker.workloop builds): type, arguments and text
+        # are equally stable under further round trips
+        import billiard.pool as _bp
+        for inner, val in ((TypeError("cannot pickle 'x'"), [1, 2]), (ValueError('v', 3), 'text'), (Custom(('a', 2), None), None)):
+            cases += 1
+            try:
+                raise inner
+            except Exception:
+                tb = sys.exc_info()[2]
+            wrapped = _bp.MaybeEncodingError(inner, val)
+            cur = be.ExceptionInfo((_bp.MaybeEncodingError, wrapped, tb))
+            if 'v_roundtrip' not in cur.traceback or 'Traceback' not in cur.traceback:
+                return {'status': 'refuted', 'messages': ['text of a record built from an explicit (type, value, traceback) triple does not name the raising frame'], 'cases': cases}
+            first = None
+            for k in range(3):
+                cur = pickle.loads(pickle.dumps(cur))
+                e = cur.exception
+                snap = (cur.type, type(e), e.args, getattr(e, 'exc', None), getattr(e, 'value', None), str(e), cur.traceback)
+                if cur.type is not _bp.MaybeEncodingError or type(e) is not _bp.MaybeEncodingError:
+                    return {'status': 'refuted', 'messages': ['encoding-error record changed type after %d round trips' % (k + 1)], 'cases': cases}
+                if e.args != wrapped.args:
+                    return {'status': 'refuted', 'messages': ['arguments of the encoding-error record changed after %d round trip(s): %r -> %r'
+                                                              % (k + 1, wrapped.args, e.args)], 'cases': cases}
+                if first is None:
+                    first = snap
+                elif snap != first:
+                    return {'status': 'refuted', 'messages': ['encoding-error record changed by round trip %d' % (k + 1)], 'cases': cases}
         # __reduce__ of the stand-ins: (cls.__new__, (cls,), __dict__), so one round trip is the identity on state
         ei = _einfo(3, ValueError('r'))
         for obj, cls in ((ei.tb, be.Traceback), (ei.tb.tb_frame, be._Frame), (ei.tb.tb_frame.f_code, be._Code), (be._Truncated(), be._Truncated)):
